@@ -269,6 +269,31 @@ func H_C04_typing() {
 		{`str + "t"`, reflect.String, func(v reflect.Value) bool { return v.String() == "xyt" }},
 		{`str + 7`, reflect.String, func(v reflect.Value) bool { return v.String() == "xy7" }},
 		{`str + true`, reflect.String, func(v reflect.Value) bool { return v.String() == "xytrue" }},
+		// an empty string on the left still concatenates: the result is a string, and the
+		// next + (left-associative) concatenates again
+		{`estr + i8`, reflect.String, func(v reflect.Value) bool { return v.String() == "3" }},
+		{`"" + i8`, reflect.String, func(v reflect.Value) bool { return v.String() == "3" }},
+		{`estr + i8 + u8`, reflect.String, func(v reflect.Value) bool { return v.String() == "35" }},
+		{`"" + 1 + 2`, reflect.String, func(v reflect.Value) bool { return v.String() == "12" }},
+		{`estr + true`, reflect.String, func(v reflect.Value) bool { return v.String() == "true" }},
+		{`(p ? "" : "-") + i8 + u8`, reflect.String, func(v reflect.Value) bool { return v.String() == "35" }},
+		// logical operators yield a bool whatever their operands are (truthiness as in C05)
+		{`a && true`, reflect.Bool, func(v reflect.Value) bool { return v.Bool() == (a != 0) }},
+		{`a || false`, reflect.Bool, func(v reflect.Value) bool { return v.Bool() == (a != 0) }},
+		{`a && b`, reflect.Bool, func(v reflect.Value) bool { return v.Bool() == (a != 0 && b != 0) }},
+		{`a || b`, reflect.Bool, func(v reflect.Value) bool { return v.Bool() == (a != 0 || b != 0) }},
+		{`u || false`, reflect.Bool, func(v reflect.Value) bool { return v.Bool() == (u != 0) }},
+		{`str || false`, reflect.Bool, func(v reflect.Value) bool { return v.Bool() }},
+		{`estr && true`, reflect.Bool, func(v reflect.Value) bool { return !v.Bool() }},
+		{`estr || str`, reflect.Bool, func(v reflect.Value) bool { return v.Bool() }},
+		{`(a || false) == true`, reflect.Bool, func(v reflect.Value) bool { return v.Bool() == (a != 0) }},
+		{`"r=" + (a || false)`, reflect.String, func(v reflect.Value) bool {
+			if a != 0 {
+				return v.String() == "r=true"
+			}
+			return v.String() == "r=false"
+		}},
+		{`!a`, reflect.Bool, func(v reflect.Value) bool { return v.Bool() == (a == 0) }},
 	}
 	c := ndChoice("case", len(cases))
 	var got reflect.Value
@@ -279,6 +304,8 @@ func H_C04_typing() {
 	vars.Set("f", f)
 	vars.Set("u", u)
 	vars.Set("str", "xy")
+	vars.Set("estr", "")
+	vars.Set("p", true)
 	vars.Set("f32", float32(1.5))
 	vars.Set("i8", int8(3))
 	vars.Set("u8", uint8(5))
